@@ -25,6 +25,7 @@ package backoff
 import (
 	"context"
 	"errors"
+	"math"
 	rand "math/rand/v2"
 	"time"
 
@@ -70,6 +71,11 @@ func (bc Exponential) Backoff(retries int) time.Duration {
 	backoff *= 1 + bc.Config.Jitter*(rand.Float64()*2-1)
 	if backoff < 0 {
 		return 0
+	}
+	if backoff >= float64(math.MaxInt64) {
+		// float64(MaxDelay) rounds up to 2^63 for delays close to
+		// math.MaxInt64; saturate instead of wrapping to a negative duration.
+		return time.Duration(math.MaxInt64)
 	}
 	return time.Duration(backoff)
 }
